@@ -31,7 +31,7 @@ func hasStorageEffect(e map[string]bool) bool {
 // c13Allowed lists reviewed constructs (caller + callee) whose error is
 // deliberately not propagated, one reason each.
 var c13Allowed = map[string]string{
-	"registration.validateServerLedActivationToken -> types.LoadNodeInformation": "existing-record probe: a failing load lets enrollment proceed and the call then completes with a record that is persisted, which C13 allows (DESIGN 4.3)",
+	"registration.<token validator> -> types.LoadNodeInformation": "existing-record probe: a failing load lets enrollment proceed and the call then completes with a record that is persisted, which C13 allows (DESIGN 4.3)",
 }
 
 func c13(c *Ctx) {
@@ -86,7 +86,12 @@ func c13(c *Ctx) {
 			}
 			used := ev != nil && ev.Referrers() != nil && len(nonDebugRefs(ev)) > 0
 			if !used {
-				if why, ok := c13Allowed[core.FuncName(fn)+" -> "+callee]; ok {
+				callerKey := core.FuncName(fn)
+				if isTokenValidator(fn) {
+					// identified by what it takes (the token nonce), not by its name
+					callerKey = "registration.<token validator>"
+				}
+				if why, ok := c13Allowed[callerKey+" -> "+callee]; ok {
 					r.OK("R-C13.1", construct, pos, "allow-listed discard: "+why)
 				} else {
 					r.Bad("R-C13.1", construct, pos, "the error of a storage-reaching call is discarded")
@@ -100,7 +105,7 @@ func c13(c *Ctx) {
 					returned = true
 				}
 			}
-			ok, _, fail, _ := errTestEdges(call)
+			ok, _, fail, testIf := errTestEdges(call)
 			if !ok {
 				if returned {
 					r.OK("R-C13.1", construct, pos, "error returned to the caller unchanged")
@@ -136,7 +141,20 @@ func c13(c *Ctx) {
 				r.Unk("R-C13.1", construct, pos, "enclosing function has no error result to propagate to")
 				continue
 			}
-			res := core.CutReachFrom(p, fn, fail, tolerated, nil, sinks...)
+			// start at the test itself, knowing it failed: later tests of the same value
+			// (through a merged error variable) are then decided
+			_ = fail
+			core.StartFacts = map[ssa.Value]bool{ev: true}
+			core.StartIdx = 0
+			if call.Block() == testIf.Block() {
+				for k, in := range testIf.Block().Instrs {
+					if in == ssa.Instruction(call) {
+						core.StartIdx = k + 1
+					}
+				}
+			}
+			res := core.CutReachFrom(p, fn, testIf.Block(), tolerated, nil, sinks...)
+			core.StartFacts, core.StartIdx = nil, 0
 			if res.Reachable {
 				r.Add(core.Obligation{Rule: "R-C13.1", Construct: construct, Pos: pos, Verdict: core.Violated,
 					Detail: "after this storage-reaching call failed, a return without an error is reachable (failure is swallowed)", Witness: res.Witness})
